@@ -1,3 +1,5 @@
+#[cfg(okane_verif)]
+use crate::verif::{chrono, std};
 use std::ffi::OsStr;
 use std::fs::File;
 use std::io::BufReader;
